@@ -55,7 +55,7 @@ std::string Ctx::gname(const GlobalValue* G)
     if (it != gvNames.end()) return it->second;
     std::string base = sanitize(G->getName());
     if (auto* F = dyn_cast<Function>(G))
-        if (F->isDeclaration() && !F->getName().startswith("verif_")) base = "verif_rt_" + base;
+        if (isExt(F) && !F->getName().startswith("verif_")) base = "verif_rt_" + base;
     if (auto* GV = dyn_cast<GlobalVariable>(G))
         if (GV->isDeclaration()) base = "verif_xg_" + base;
     std::string n = base;
@@ -282,7 +282,7 @@ std::string Ctx::cexpr(Constant* C)
     }
     if (auto* F = dyn_cast<Function>(C))
     {
-        if (F->isDeclaration()) usedExternals.insert(F);
+        if (isExt(F)) usedExternals.insert(F);
         return "(&" + gname(F) + ")";
     }
     if (auto* CE = dyn_cast<ConstantExpr>(C))
@@ -554,12 +554,12 @@ std::vector<Function*> Ctx::indirectTargets(CallBase* CB)
                 auto* CA = dyn_cast<ConstantArray>(Arr);
                 if (!CA || CA->getNumOperands() <= (unsigned) (2 + slot)) continue;
                 auto* F = dyn_cast<Function>(CA->getOperand(2 + slot)->stripPointerCasts());
-                if (F && !F->isDeclaration() && compatibleFT(F->getFunctionType(), FT) && seen.insert(F).second) out.push_back(F);
+                if (F && !isExt(F) && compatibleFT(F->getFunctionType(), FT) && seen.insert(F).second) out.push_back(F);
             }
         }
         return out;
     }
     for (Function* H : addrTaken)
-        if (!H->isDeclaration() && compatibleFT(H->getFunctionType(), FT)) out.push_back(H);
+        if (!isExt(H) && compatibleFT(H->getFunctionType(), FT)) out.push_back(H);
     return out;
 }
